@@ -456,7 +456,7 @@ def conc_sessions(ctx, n=None, only=None):
     from adb_shell.adb_device import AdbDevice
     from adb_shell.adb_device_async import AdbDeviceAsync
     rep = ctx.report
-    total = n if n is not None else int((40 if ctx.tier == "quick" else 600) * ctx.budget)
+    total = n if n is not None else int((100 if ctx.tier == "quick" else 1500) * ctx.budget)
     if only is not None:
         total = 1
     for k in range(total):
@@ -472,7 +472,7 @@ def conc_sessions(ctx, n=None, only=None):
         if only is not None:
             outs = {bytes.fromhex(a): [bytes.fromhex(c) for c in cs] for a, cs in only["outs"]}
         bias = {"C07": ["push", "push", "push", "stat", "pull", "shell"], "C08": ["pull", "pull", "push", "stat", "shell"],
-                "C09": ["stat", "stat", "pull", "push", "shell"], "C10": ["push", "pull", "stat"]}.get(ctx.prop, ["shell", "shell", "push", "stat", "pull"])
+                "C09": ["stat", "stat", "pull", "push", "shell"], "C10": ["push", "pull", "stat"], "C06": ["shell", "push", "stat", "pull", "push"]}.get(ctx.prop, ["shell", "shell", "push", "stat", "pull"])
         kinds = (only or {}).get("kinds") or [rng.choice(bias) for _ in range(nw)]
         pushed = {i: bytes([97 + i]) * rng.choice([10, 3000, 5000]) for i in range(nw)}
         pulled = {i: bytes([65 + i]) * rng.choice([0, 7, 9000]) for i in range(nw)}
@@ -551,7 +551,7 @@ def conc_sessions(ctx, n=None, only=None):
                 deadlock = str(exc)
             for t in threads:
                 t.join(timeout=2.0)
-            sched_order = [e[0] for e in baton.log if e[1] in ("acq", "line")]
+            sched_order = list(baton.picks)
         else:
             out = {}
 
@@ -611,7 +611,7 @@ def conc_sessions(ctx, n=None, only=None):
                     for t in tasks:
                         t.cancel()
                 await asyncio.gather(*tasks, return_exceptions=True)
-                out["order"] = [e[0] for e in baton.log if e[1] == "acq"]
+                out["order"] = list(baton.picks)
             loop = asyncio.new_event_loop()
             try:
                 loop.run_until_complete(main())
